@@ -780,6 +780,7 @@ pub fn run(ctx: &Ctx, property: &'static str) -> Report {
     cfg_label: cfg.label(),
     alts: layout.alts(),
     k,
+    k_min: 0,
     budget_secs: budget,
   };
   let totals: Totals = run_histories(&spec, &mut report, |id| Worker::new(id, l), |w, c| exec(w, &cfg, l, c));
